@@ -641,11 +641,11 @@ def patterns_around(rng, m):
 
 
 class Case:
-    __slots__ = ('kind', 'A', 'B', 's', 'opts', 'xml', 'model', 'impl', 'pats', 'patexp')
+    __slots__ = ('kind', 'A', 'B', 's', 'opts', 'xml', 'model', 'impl', 'pats', 'patexp', 'proto')
 
     def __init__(self, kind, A, B, s=0, opts='e', xml=None):
         self.kind, self.A, self.B, self.s, self.opts, self.xml = kind, A, B, s, opts, xml
-        self.model = self.impl = None; self.pats = []; self.patexp = ''
+        self.model = self.impl = None; self.pats = []; self.patexp = ''; self.proto = ''
 
     def model_line(self):
         return 'R %s - ; %s ; %s' % (self.opts, gtext(self.A), gtext(self.B))
@@ -654,9 +654,20 @@ class Case:
         return '%d|%s|%s|%s' % (seed, scaled_wkt(self.A, self.s), scaled_wkt(self.B, self.s), ','.join(self.pats))
 
 
+DRVP = [None]      # the protocol driver (generated predicate classes); None when it could not be built
+
+
 def evaluate(ctx, cases, drv, hexe, rng, timeout=1200):
     """fill model / impl outputs of the cases"""
     mo = run_parallel(ctx, [drv], [c.model_line() for c in cases], timeout)
+    if DRVP[0]:
+        idx, lines = [], []
+        for i, (c, o) in enumerate(zip(cases, mo)):
+            d = parse_out(o)
+            if 'ev' in d and 'M' in d:
+                idx.append(i); lines.append('V %s %s %s %s %s' % (d['dims'].replace(',', ' '), d['ea'], d['eb'], d['ev'], d['M']))
+        for i, o in zip(idx, run_parallel(ctx, [DRVP[0]], lines, timeout)):
+            cases[i].proto = o
     for c, o in zip(cases, mo):
         c.model = o
         d = parse_out(o)
@@ -757,6 +768,7 @@ def shrink(ctx, c, keys, drv, hexe, rng, budget=6):
 
 
 def corpus_cases():
+    """gen/corpus/C01.txt: name | WKT A | WKT B (integer coordinates); every pair in both orders"""
     out = []
     p = os.path.join(ROOT, 'gen/corpus/C01.txt')
     if os.path.exists(p):
@@ -765,13 +777,12 @@ def corpus_cases():
             if l and not l.startswith('#'):
                 f = [x.strip() for x in l.split('|')]
                 try:
-                    out.append(Case('corpus:' + f[0], parse_wkt(f[1]), parse_wkt(f[2]), 0, 'est'))
-                    for g in (out[-1].A, out[-1].B):
-                        pass
-                    out[-1].A = map_coords(out[-1].A, lambda q: (int(q[0]), int(q[1])))
-                    out[-1].B = map_coords(out[-1].B, lambda q: (int(q[0]), int(q[1])))
+                    toint = lambda q: (int(q[0]), int(q[1]))
+                    a, b = map_coords(parse_wkt(f[1]), toint), map_coords(parse_wkt(f[2]), toint)
                 except Exception as e:
                     raise ValueError('gen/corpus/C01.txt: cannot parse %r (%s)' % (l, e))
+                out.append(Case('corpus:' + f[0], a, b, 0, 'est'))
+                out.append(Case('corpus:' + f[0] + ':swapped', b, a, 0, 'e'))
     return out
 
 
@@ -791,11 +802,14 @@ def run(ctx):
     ctx.translate(BY_PROPERTY.get('C01', []))
     ok_coq, ax = ctx.coq_build('Properties_C01')
     drv = ctx.ocaml_driver('C01')
+    DRVP[0] = ctx.ocaml_driver('C01p') if ok_coq else None
+    if DRVP[0] is None:
+        ctx.log('protocol driver not available (generated units / their proofs do not build): running the core oracle only')
     hexe = os.path.join(BUILD, 'bin', 'c01')
     if not ok_build or not ctx.cxx(os.path.join(ROOT, 'harness/c01.c'), hexe, 'rel') or not drv:
         return
     rng = random.Random(ctx.seed)
-    n = 2600 if ctx.quick else 45000
+    n = 5000 if ctx.quick else 60000
     cases = corpus_cases()
     # ---- XML corpus
     xml = xml_cases()
@@ -859,12 +873,24 @@ def run(ctx):
         # ---- the oracle's own certificates
         if m.get('sideok') != '1':
             ctx.broken.append(dict(kind='oracle', name='side witness not open (eps too large for this input?)', detail=c.model_line()[:600]))
-        if m.get('real') != '1':
-            ctx.violation('unrealizable_%d' % ci, replay, msg='the exact matrix %s with dims %s violates a geometric fact the predicate short-cuts rely on (PredSound.realizable)' % (m['M'], m['dims']))
-        if 'EV' in m and (m['EV'] != m['named'][:10] or m['EVR'] != m['named'][:10]):
-            if not (m['dims'] == '-1,-1' and m['EV'][7] == '1' and m['EV'][:7] + '0' + m['EV'][8:] == m['named'][:10]):
-                ctx.broken.append(dict(kind='correspondence', name='generated predicate protocol on the oracle events vs pattern sets',
-                                       detail='%s: EV=%s EVR=%s named=%s' % (c.model_line()[:300], m['EV'], m['EVR'], m['named'])))
+        pr = parse_out(c.proto or '')
+        if 'EV' in pr:
+            dist['protocol_checked'] = dist.get('protocol_checked', 0) + 1
+            replay['protocol'] = c.proto
+            if pr['real'] != '1':
+                ctx.violation('unrealizable_%d' % ci, replay, msg='the exact matrix %s with dims %s violates a geometric fact the predicate short-cuts rely on (PredSound.realizable)' % (m['M'], m['dims']))
+            if pr['FIN'] != M[0]:
+                ctx.broken.append(dict(kind='oracle', name='events do not accumulate to the oracle matrix', detail='%s: %s vs %s' % (c.model_line()[:300], pr['FIN'], M[0])))
+            if pr['EV'] != m['named'][:10] or pr['EVR'] != m['named'][:10]:
+                # the one refuted case (PredSound.equals_both_empty_refuted): equals of two empty geometries
+                if not (m['dims'] == '-1,-1' and pr['EV'][7] == '1' and pr['EV'][:7] + '0' + pr['EV'][8:] == m['named'][:10]):
+                    ctx.broken.append(dict(kind='correspondence', name='generated predicate protocol on the oracle events vs pattern sets',
+                                           detail='%s: EV=%s EVR=%s named=%s' % (c.model_line()[:300], pr['EV'], pr['EVR'], m['named'])))
+            # the generated classes (as the C++ has them now) against the implementation's own answers
+            impl10 = d['named'][:10]
+            if pr['EV'] != impl10 and not compare(ctx, c) and not (m['dims'] == '-1,-1'):
+                ctx.broken.append(dict(kind='correspondence', name='generated predicate classes disagree with the library they were generated from',
+                                       detail='%s: EV=%s impl=%s' % (c.impl_line(1)[:300], pr['EV'], impl10)))
         if 'SPEC' in m:
             dist['spec_checked'] += 1
             if m['SPEC'] != M[0]:
@@ -904,7 +930,7 @@ def run(ctx):
                                      top_matrices=sorted(dist['matrices'].items(), key=lambda kv: -kv[1])[:15], invalid_by_model=dist['invalid_by_model'],
                                      out_of_scope_collections=dist['out_of_scope'], validity_disagreements_with_GEOSisValid=dist['validity_disagreements'],
                                      xml_relate_ops=len(xml), xml_checked=dist['xml_checked'], xml_skipped=dist['xml_skipped'],
-                                     specification_cross_checked=dist['spec_checked'], invariance_cross_checked=dist['transform_checked'],
+                                     specification_cross_checked=dist['spec_checked'], invariance_cross_checked=dist['transform_checked'], protocol_checked=dist.get('protocol_checked', 0),
                                      witnesses_total=dist['witnesses'], witnesses_max=dist['max_witnesses'],
                                      pairs_with_inexact_node_on_three_segments=dist.get('fragile_pairs', 0), of_which_disagree_known_finding_C01_F3=dist.get('fragile_mismatch', 0))
     for c in cases[:200:40]:
